@@ -60,7 +60,8 @@ def plant(rng):
                        'interp-text', 'interp-attr', 'repeat', 'omit', 'switch', 'case', 'pipe-alt', 'string-part', 'not-prefix',
                        'define-syntax', 'dup-attr', 'content+replace', 'end-tag', 'reserved', 'reserved-tuple', 'case-no-switch',
                        'bad-interpolation', 'name-outside', 'comment--', 'fill-no-use', 'entity-before', 'newline-in-expr',
-                       'unknown-tal', 'unknown-prefix', 'repeat-two', 'switch+case', 'undeclared-ns'])
+                       'unknown-tal', 'unknown-prefix', 'repeat-two', 'switch+case', 'undeclared-ns',
+                       'define-n', 'define-n', 'attributes-n', 'attributes-n', 'i18n-attributes-n'])
     el = None
     exp = None
     finding = None
@@ -93,6 +94,33 @@ def plant(rng):
         el = '<p tal:define="a 1; b %s">x</p>' % bad
         base = '<p tal:define="a 1; b 2">x</p>'
         exp = ('ExpressionError', bad, len(pre) + at(el, bad))
+        nontrivial = True
+    elif kind in ('define-n', 'attributes-n'):
+        # 3..5 ;-separated parts of varying width, the invalid expression in any of them
+        n = rng.randint(3, 5)
+        k = rng.randrange(n)
+        names = ['a', 'bb', 'c', 'dddd', 'e']
+        vals = ['1', "'xy'", '22', 'a', '(1, 2)']
+        sep = rng.choice(['; ', ';', ' ;  ', ';\n   '])
+        parts = ['%s %s' % (names[i], bad if i == k else vals[i]) for i in range(n)]
+        gparts = ['%s %s' % (names[i], vals[i]) for i in range(n)]
+        st = 'define' if kind == 'define-n' else 'attributes'
+        el = '<p tal:%s="%s">x</p>' % (st, sep.join(parts))
+        base = '<p tal:%s="%s">x</p>' % (st, sep.join(gparts))
+        exp = ('ExpressionError', bad, len(pre) + at(el, bad))
+        nontrivial = True
+    elif kind == 'i18n-attributes-n':
+        # an illegal i18n:attributes entry (two message ids) in the third or a later part
+        n = rng.randint(3, 4)
+        k = rng.randrange(n)
+        names = ['title', 'alt', 'summary', 'abbr']
+        parts = [names[i] + (' id%d' % i if i % 2 else '') for i in range(n)]
+        badpart = names[k] + ' one two'
+        gparts = list(parts)
+        parts[k] = badpart
+        el = '<p %s i18n:attributes="%s">x</p>' % (' '.join('%s="v"' % nm for nm in names[:n]), '; '.join(parts))
+        base = '<p %s i18n:attributes="%s">x</p>' % (' '.join('%s="v"' % nm for nm in names[:n]), '; '.join(gparts))
+        exp = None           # judged by source[offset:offset+len(token)] == token and the class
         nontrivial = True
     elif kind == 'define-after-escape':
         el = "<p tal:define=\"a 'x;;y'; b %s\">x</p>" % bad
